@@ -77,6 +77,9 @@ func runC12(c *Ctx) {
 	c12AnyURLLastSlash(c, pk)
 	c12KeptImpliesWalked(c, pk)
 	ruleSortedInvariant(c, "SORTED-INVARIANT", []*packages.Package{pk}, 2)
+	c12NilMeansDeleted(c, pk)
+	c12OptionsTypesComplete(c, pk)
+	c12FilterOnce(c)
 	batchKeyRule(c, "BATCH-KEY")
 	c12PathIndexPositional(c, pk)
 	info := pk.TypesInfo
